@@ -15,6 +15,12 @@ import Regatta.Props.C04
 namespace Regatta.Props.C08
 open Regatta Regatta.Fsm Regatta.Snap Regatta.Crash
 
+/-- the format codes of the model are the current source's (`RecoveryTypeSnapshot`,
+`RecoveryTypeCheckpoint`; regenerated on every run) -/
+theorem c08_codes_match_source :
+    (Fmt.code .snapshot).toNat = Regatta.Extracted.recoveryTypeSnapshot ∧
+    (Fmt.code .checkpoint).toNat = Regatta.Extracted.recoveryTypeCheckpoint := ⟨rfl, rfl⟩
+
 /-- the header written for a format selects exactly that format's recoverer -/
 theorem c08_header_selects (f : Fmt) : recovererOf (header f) = some f := by
   cases f <;> rfl
